@@ -5,7 +5,7 @@ import ast
 
 import typing
 
-from ..core import FuncInfo
+from ..core import AnalysisError, FuncInfo
 
 READERS = ["ttconv.imsc.reader", "ttconv.imsc.elements", "ttconv.imsc.attributes", "ttconv.imsc.utils",
            "ttconv.imsc.style_properties", "ttconv.utils",
@@ -245,7 +245,7 @@ def check_walkers(ctx, module_names: typing.Iterable[str]):
 
 SHARED_CLAUSES = {
   "color": " (FIN-color) the shared colour parser, interpreted on a table of <color> values (hex with and without alpha, alpha 00, rgb(), rgba(), named colours in any case) "
-           "returns exactly those components, and raises on values with anything before or after a colour or with the wrong number of digits / components;",
+           "returns exactly those components, and raises ValueError - by an explicit raise, not by a failing conversion - on values with anything before or after a colour or with the wrong number of digits / components;",
   "text": " (ID-text) model.Text, interpreted on composed, decomposed and compatibility characters, stores the string it is given code point for code point (no normalisation between reader and writer);",
   "validators": " (VAL-strict) every style property whose type is an enumeration or bool rejects, interpreted, the raw tokens of the enumeration and the numbers 0 / 1, and LengthType rejects raw unit symbols "
                 "and non-numbers: tests by identity (`is DisplayType.none`, `units is Units.px`) in the snapshot and the writers rely on that;",
@@ -282,3 +282,55 @@ def check_shared_helpers(ctx, color=False, text=False, validators=False, truthy_
     fs = [f for n_ in names for f in ctx.ix.funcs_in(n_)]
     _lint.optional_number_truthiness(ctx, fs)
     ctx.ok("LINT-n", f"{len(names)} modules|no optional number is tested by truthiness", "src/main/python/ttconv", f"{len(fs)} functions scanned")
+
+
+def check_text_handlers(ctx, qualnames: typing.Iterable[str], rule="KEEP-text"):
+  """The handlers that turn a run of cue text into model.Text nodes keep every character: they have no early exit that depends
+  on the content of the text (a `return` / `continue` under strip() / isspace() / a pattern drops the white space that separates
+  two tags), and what they store is the piece of the text itself, not a stripped or otherwise rewritten copy."""
+  import ast
+  from ..core import own_nodes, parent, short, unparse
+  n = 0
+  for q in qualnames:
+    f = ctx.ix.func(q)
+    ctx.unit(f.module)
+    payload = [p for p in f.params if p != "self"]
+    if not payload:
+      raise AnalysisError(f"{q}: no payload parameter")
+    pay = payload[0]
+    n += 1
+    key = f"{q}|every character of the text reaches a Text node"
+    exits = [x for x in own_nodes(f.node) if isinstance(x, (ast.Return, ast.Continue, ast.Break, ast.Raise))]
+    verdict = None
+    for x in exits:
+      conds = []
+      cur = parent(x)
+      while cur is not None and cur is not f.node:
+        if isinstance(cur, (ast.If, ast.While)):
+          conds.append(cur.test)
+        cur = parent(cur)
+      plain = all(unparse(t) in (f"not {pay}", f"{pay} == ''", f'{pay} == ""', f"len({pay}) == 0", f"not {pay}.value", f"{pay} is None", f"{pay}.value is None") for t in conds)
+      if conds and plain:
+        continue
+      looks = any(isinstance(c, ast.Call) for t in conds for c in ast.walk(t))
+      if looks or not conds:
+        verdict = ("bad", x, conds)
+        break
+      verdict = verdict or ("und", x, conds)
+    texts = [c for c in own_nodes(f.node) if isinstance(c, ast.Call) and unparse(c.func).endswith("Text") and c.args]
+    if not texts:
+      ctx.undecide(rule, f"{q}: no model.Text(..) construction found")
+      continue
+    rewritten = [c for c in texts if any(isinstance(a, ast.Call) and isinstance(a.func, ast.Attribute) and a.func.attr in ("strip", "lstrip", "rstrip", "replace", "lower", "upper", "title", "expandtabs")
+                                          for a in ast.walk(c.args[-1]))]
+    if verdict and verdict[0] == "bad":
+      _k, x, conds = verdict
+      ctx.bad(rule, key, ctx.where(f.module, x), f"{f.short} leaves by `{short(x, 30)}`" + (f" under `{short(conds[0], 60)}`" if conds else " unconditionally")
+              + ": text that meets the test - white space between two tags, a line break - never becomes a Text node and is missing from the document")
+    elif rewritten:
+      ctx.bad(rule, key, ctx.where(f.module, rewritten[0]), f"{f.short} stores `{short(rewritten[0].args[-1], 50)}`, a rewritten copy of the text")
+    elif verdict:
+      ctx.undecide(rule, f"{q}: an early exit under `{short(verdict[2][0], 60)}` is not classified")
+    else:
+      ctx.ok(rule, key, ctx.where(f.module, f.node), f"{len(exits)} early exits, {len(texts)} Text constructions from the text itself")
+  return n
